@@ -53,6 +53,19 @@ func c20(r *Report) propMeta {
 	r.Exists("feeds-view-from-the-query", sg+"updateFeedMap", StoreEff("Signaller.signalIDToFeed", "^call:signaller.sliceToMap", "field:CurrentFeedWithDeviations.Feeds", "call:FeedQuerier.QueryCurrentFeeds"), 1)
 	r.RetFresh("slice-to-map-fresh", "grogu/signaller.sliceToMap", 0)
 
+	// the chain tells the daemon the STORED interval of each current feed (the one CheckMissReport enforces), and the
+	// daemon never trusts a node that is behind a state it has already seen
+	cfq := "x/feeds/keeper.queryServer.CurrentFeeds"
+	r.ArgHas("query-reports-stored-interval", cfq, "types.NewFeedWithDeviation", 2, 1, "^field:Feed.Interval", "call:Keeper.GetCurrentFeeds", "!call:types.CalculateInterval")
+	r.ArgHas("query-reports-stored-power", cfq, "types.NewFeedWithDeviation", 1, 1, "^field:Feed.Power", "call:Keeper.GetCurrentFeeds")
+	r.ArgHas("query-reports-signal", cfq, "types.NewFeedWithDeviation", 0, 1, "^field:Feed.SignalID", "call:Keeper.GetCurrentFeeds")
+	r.ctorField("feed-with-deviation-ctor", ft+".NewFeedWithDeviation", "FeedWithDeviation.Interval", 2)
+	r.LoopVisitsAll("query-reports-every-feed", cfq, "types.NewFeedWithDeviation", LoopOpts{})
+	gm := "grogu/querier.getMaxBlockHeightResponse"
+	r.Gate("height-guard-only-moves-forward", gm, CallEff("atomic.Int64.Store", "param:maxBlockHeight"), []Cond{{Op: "LSS", A: []string{"phi", "field:responseWithBlockHeight.blockHeight"}, B: []string{"^call:atomic.Int64.Load", "param:maxBlockHeight"}, Want: false, Desc: "not (best height < highest height seen)"}}, GateOpts{})
+	r.EffectSet("height-guard-written-only-by-store", gm, []string{"atomic.Int64.Swap", "atomic.Int64.Add", "atomic.Int64.CompareAndSwap"}, nil)
+	r.Gate("stale-answer-rejected", gm, RetOK(), []Cond{{Op: "LSS", A: []string{"phi", "field:responseWithBlockHeight.blockHeight"}, B: []string{"^call:atomic.Int64.Load", "param:maxBlockHeight"}, Want: false, Desc: "not (best height < highest height seen)"}}, GateOpts{AnySite: true})
+
 	r.Rule("C20.R4", "sibling agreement: cooldown on chain and in the daemon")
 	ss := fMS + "SubmitSignalPrices"
 	r.Gate("chain-cooldown", ss, CallEff("types.NewValidatorPrice"), []Cond{
